@@ -473,6 +473,8 @@ def items_for(tier):
     return out
 
 
+# scenarios whose complete schedule space is small (about a hundred executions): explored without preemption bound
+UNBOUNDED = ("same-url", "missing", "unparsable", "undecodable", "refresh")
 _BASES = {}
 
 
@@ -587,6 +589,13 @@ def explore_task(packed):
     if root is None:
         # phase 1: the default execution only; its alternatives become the roots of phase 2
         s = execute([])
+        # determinism guard: the same schedule replayed must give the same points and the same observations
+        s_again = execute([])
+        a = ([(p["label"], p["tid"], p["n"]) for p in s.points], repr(judge(item, s, refs)[1]))
+        b = ([(p["label"], p["tid"], p["n"]) for p in s_again.points], repr(judge(item, s_again, refs)[1]))
+        shutil.rmtree(s_again.ctx.tmp, ignore_errors=True)
+        if a != b:
+            raise env.HarnessError("replaying the default schedule of %r gave a different execution" % (item,))
         on_exec(s, [p["choice"] for p in s.points])
         cost = 0
         for i, p in enumerate(s.points):
@@ -614,7 +623,8 @@ def check(tier):
         "sibling order inside a resolved document is not judged here (C12)",
     ])
     items = items_for(tier)
-    run.bounds = {"preemption_bound_completed": bound, "scenario_variants": len(items)}
+    run.bounds = {"preemption_bound_completed": bound, "scenario_variants": len(items),
+                  "explored_without_preemption_bound": list(UNBOUNDED)}
     per_item = collections.OrderedDict()
 
     def absorb(res):
@@ -635,10 +645,11 @@ def check(tier):
         run.add_failures(res["failures"])
 
     roots = []
-    for res in par.pmap("checks.c18", "explore_task", [(it, None, bound, cap) for it in items], sync_threads=False):
+    bound_of = lambda it: 99 if it["scenario"] in UNBOUNDED else bound
+    for res in par.pmap("checks.c18", "explore_task", [(it, None, bound_of(it), cap) for it in items], sync_threads=False):
         absorb(res)
         for alt in res["alternatives"]:
-            roots.append((res["item"], alt, bound, cap))
+            roots.append((res["item"], alt, bound_of(res["item"]), cap))
     roots.sort(key=lambda r: (snapshot.canon(r[0]), r[1]))
     for res in par.pmap("checks.c18", "explore_task", roots, sync_threads=False):
         absorb(res)
